@@ -118,11 +118,12 @@ class CVec(CSym):
         if name == "_mm_set1_epi16":
             w = self.imm(args[0]) & 0xffff
             return self.from_int(sum(w << (16 * i) for i in range(8)), 4)
-        if name in ("_mm_set_epi8", "_mm_setr_epi8"):
+        m = re.fullmatch(r"_mm(256|512)?_set(r)?_epi8", name)
+        if m:
             bs = [self.imm(a) & 0xff for a in args]
-            if name == "_mm_set_epi8":
+            if not m.group(2):
                 bs.reverse()
-            return self.from_int(sum(b << (8 * i) for i, b in enumerate(bs)), 4)
+            return self.from_int(sum(b << (8 * i) for i, b in enumerate(bs)), len(bs) // 4)
         if name == "_mm_cmpeq_epi16":
             a, b = self.as_int(args[0]), self.as_int(args[1])
             if a is None or b is None:
@@ -192,21 +193,90 @@ class CVec(CSym):
                     raise SymFail("blend_epi16 splits a dword")
                 out.append(b.l[i] if bits else a.l[i])
             return LV(out)
-        if name == "_mm_unpacklo_epi32":
+        m = re.fullmatch(r"_mm(256|512)?_unpack(lo|hi)_epi(32|64)", name)
+        if m:
             a, b = args
-            return LV([a.l[0], b.l[0], a.l[1], b.l[1]])
-        if name == "_mm_unpackhi_epi32":
-            a, b = args
-            return LV([a.l[2], b.l[2], a.l[3], b.l[3]])
-        if name == "_mm_unpacklo_epi64":
-            a, b = args
-            return LV([a.l[0], a.l[1], b.l[0], b.l[1]])
-        if name == "_mm_unpackhi_epi64":
-            a, b = args
-            return LV([a.l[2], a.l[3], b.l[2], b.l[3]])
+            hi = 2 if m.group(2) == "hi" else 0
+            if m.group(3) == "32":
+                return LV(per128(len(a), lambda o: [a.l[o + hi], b.l[o + hi], a.l[o + hi + 1], b.l[o + hi + 1]]))
+            return LV(per128(len(a), lambda o: [a.l[o + hi], a.l[o + hi + 1], b.l[o + hi], b.l[o + hi + 1]]))
+        if name in ("_mm256_permute2x128_si256", "_mm256_permute2f128_si256", "__builtin_ia32_permti256", "__builtin_ia32_vperm2f128_si256"):
+            a, b, imm = args[0], args[1], self.imm(args[2])
+            out = []
+            for half in range(2):
+                c = (imm >> (4 * half)) & 0xf
+                if c & 8:
+                    out += [T.const(0)] * 4
+                else:
+                    src = (a, a, b, b)[c & 3]
+                    o = 4 * (c & 1)
+                    out += src.l[o:o + 4]
+            return LV(out)
+        if name in ("_mm512_shuffle_i32x4", "__builtin_ia32_shuf_i32x4"):
+            a, b, imm = args[0], args[1], self.imm(args[2])
+            out = []
+            for i in range(4):
+                sel = (imm >> (2 * i)) & 3
+                src = a if i < 2 else b
+                out += src.l[4 * sel:4 * sel + 4]
+            return LV(out)
+        if name in ("_mm512_castsi512_si256", "_mm256_castsi256_si128"):
+            return LV(args[0].l[:len(args[0]) // 2])
+        if name in ("_mm256_mask_storeu_epi32", "__builtin_ia32_storedqusi256_mask", "_mm_mask_storeu_epi32", "__builtin_ia32_storedqusi128_mask"):
+            if name.startswith("_mm"):
+                p, k, v = args
+            else:
+                p, v, k = args
+            ck = T.cval(k) if isinstance(k, int) else None
+            if ck is None or (ck & ((1 << len(v)) - 1)) != (1 << len(v)) - 1:
+                raise SymFail("masked store with a partial or non-constant mask")
+            self.storev(p, v)
+            return T.const(0)
+        if name in ("_mm_prefetch", "__builtin_prefetch"):
+            return T.const(0)
+        return None
+
+    def block(self, stmts, env, depth):
+        # loops are accepted only when they have no effect on values (the prefetch loops of the kernels)
+        for st in stmts:
+            if st[0] == "loop":
+                subs = [x for x in st if isinstance(x, list)]
+                body = subs[0]
+                if all(x[0] == "expr" and x[1][0] == "call" and x[1][1] in ("_mm_prefetch", "__builtin_prefetch") for x in body):
+                    continue
+                # a loop whose condition is decided by constants on every evaluation is unrolled (constant trip count)
+                init = subs[1] if len(subs) > 1 else []
+                step = subs[2] if len(subs) > 2 else []
+                r = CSym.block(self, init, env, depth)
+                for _ in range(65):
+                    c = self.ev(st[2], env, depth)
+                    cv = self.T.cval(c) if isinstance(c, int) else None
+                    if cv is None:
+                        raise SymFail("loop with a non-constant condition")
+                    if not cv:
+                        break
+                    r = self.block(body, env, depth)
+                    if r:
+                        return r
+                    CSym.block(self, step, env, depth)
+                else:
+                    raise SymFail("loop does not terminate within 64 iterations")
+                continue
+            r = CSym.block(self, [st], env, depth)
+            if r:
+                return r
         return None
 
     def ev(self, e, env, depth, want_ptr=False):
+        if e[0] == "un" and e[1] in ("++", "--", "post++", "post--"):
+            cell, path = self.lv(e[2], env, depth)
+            cur = get_path(cell.v, path) if path else cell.v
+            c = self.T.cval(cur) if isinstance(cur, int) else None
+            if c is None:
+                raise SymFail("increment of a non-constant")
+            nv = self.T.const(c + (1 if "+" in e[1] else -1))
+            cell.v = set_path(cell.v, path, nv) if path else nv
+            return nv if not e[1].startswith("post") else cur
         if e[0] == "sizeof":
             sz = {"__m128i": 16, "__m256i": 32, "__m512i": 64, "uint32_t": 4, "uint8_t": 1, "uint64_t": 8}.get(e[1])
             if sz is None:
@@ -226,3 +296,46 @@ class CVec(CSym):
                 raise SymFail("inlining depth")
             return self.run(f, args, depth + 1)
         raise SymFail("uninterpreted call %s in lane-precise mode" % name)
+
+
+# ---------------------------------------------------------------- the same lane semantics for MIR (Rust intrinsics) ----
+from symexec import SymExec  # noqa: E402
+from mirlib import norm_path  # noqa: E402
+
+
+class LaneSymExec(SymExec):
+    """SymExec whose SIMD values are LV lanes; pointer helpers of core (as_ptr, add, casts) are modelled on Ptr paths"""
+
+    def __init__(self, F, T, byte_cells=(), overrides=None):
+        SymExec.__init__(self, F, T, overrides=overrides)
+        self.cv = CVec([], T, byte_cells=byte_cells)
+
+    def intrinsic(self, name, gargs, args, raw_callee):
+        T = self.T
+        n = norm_path(name)
+        base = n.rsplit("::", 1)[-1]
+        if base.startswith("_mm"):
+            a2 = list(args)
+            for g in gargs or []:
+                if isinstance(g, str) and re.fullmatch(r"-?\d+", g.strip()):
+                    a2.append(T.const(int(g)))
+            r = self.cv.intrinsic(base, a2)
+            if r is None:
+                raise SymFail("intrinsic %s has no lane semantics" % base)
+            return r
+        if re.search(r"(slice::<impl \[T\]>|array::<impl \[T; N\]>|<impl \[T\]>)::as_(mut_)?ptr$", n) or base in ("as_ptr", "as_mut_ptr"):
+            p = args[0]
+            if not isinstance(p, Ptr):
+                raise SymFail("as_ptr of a non-reference")
+            return Ptr(p.cell, p.path + (0,))
+        if re.search(r"ptr::(const_ptr|mut_ptr)::<impl \*(const|mut) T>::add$", n):
+            p, k = args
+            ck = T.cval(k) if isinstance(k, int) else None
+            if not isinstance(p, Ptr) or ck is None or not p.path:
+                raise SymFail("pointer add with a non-constant offset")
+            return Ptr(p.cell, p.path[:-1] + (p.path[-1] + ck,))
+        if re.match(r"core::num::<impl u32>::wrapping_add$", n) or re.match(r"core::num::<impl u32>::rotate_right$", n):
+            return SymExec.intrinsic(self, name, gargs, args, raw_callee)
+        if n.endswith("intrinsics::transmute") or base == "transmute":
+            return args[0]
+        return None
